@@ -148,6 +148,41 @@ Definition print_bitstring_bs (s : bs) : res str :=
   do r <- to_fift_bs s;
   let '(ds, u) := r in
   Ok (quote (map hex_upper ds ++ (if u then [ch_under] else []))).
+(* a bit string obtained the way the TL-B decoder obtains one: the source holds
+   pre ++ l ++ tail, ReadBits(|pre|) is discarded, ReadBits(|l|) is the value.
+   At a byte-aligned position ReadBits copies whole bytes, so the last byte of
+   the result keeps the first bits of [tail] behind its length (stale bits). *)
+Definition read_bs (pre l tail : bits) : res bs :=
+  let src := fst (write_bits (pre ++ l ++ tail) (new_bs (length (pre ++ l ++ tail)))) in
+  match read_bits_bs (length pre) src with
+  | (s1, Ok _) =>
+      match read_bits_bs (length l) s1 with
+      | (_, Ok r) => Ok r
+      | (_, Err e) => Err e
+      | (_, Panic p) => Panic p
+      end
+  | (_, Err e) => Err e
+  | (_, Panic p) => Panic p
+  end.
+
+(* a design that pads by rounding the length up to a multiple of 4 instead of
+   writing the zero bits (kept for Proofs/C20History.v): it shows whatever the
+   buffer holds behind the length *)
+Definition to_fift_bs_roundup (s : bs) : res (list N * bool) :=
+  if (len s mod 4 =? 0)%nat then res_map (fun d => (d, false)) (hex_of_buf s)
+  else
+    let k := (4 - len s mod 4)%nat in
+    match write_bit true (grow k (copy_bs s)) with
+    | (_, Panic p) => Panic p
+    | (t1, _) =>
+        res_map (fun d => (d, true))
+                (hex_of_buf (mkbs (buf t1) (cap t1) (len s + k) (rcur t1)))
+    end.
+Definition print_bitstring_bs_roundup (s : bs) : res str :=
+  do r <- to_fift_bs_roundup s;
+  let '(ds, u) := r in
+  Ok (quote (map hex_upper ds ++ (if u then [ch_under] else []))).
+
 (* a string of [l] written into a fresh buffer with [free] bits to spare *)
 Definition written_bs (l : bits) (free : nat) : bs := fst (write_bits l (new_bs (length l + free))).
 Definition parse_bitstring (p : str) : res bits := from_fift_str (trim_quotes p).
